@@ -117,23 +117,22 @@ Section LoggerProofs.
     exfalso. apply H. rewrite <- Heq. now apply in_map.
   Qed.
 
-  Lemma keep_aged_spec : forall f r l,
-    (forall m, In m l -> mt f m <> None) ->
-    keep_aged f r l = Some (filter (fun m => negb (in_raw m r) && mb f m) l).
+  Lemma keep_aged_some : forall f r l k,
+    keep_aged f r l = Some k -> k = filter (fun m => negb (in_raw m r) && mb f m) l.
   Proof.
-    intros f r l; induction l as [|m l IH]; intros Ht; cbn [LogView.keep_aged filter]; [reflexivity|].
-    destruct (in_raw m r) eqn:Hr; cbn [negb andb].
-    - apply IH. intros; apply Ht; now right.
-    - unfold LogView.mb at 1. destruct (mt f m) as [b|] eqn:Hm; [|exfalso; eapply Ht; [now left|eassumption]].
-      rewrite IH by (intros; apply Ht; now right). now destruct b.
+    intros f r l; induction l as [|m l IH]; intros k H; cbn [LogView.keep_aged filter] in *; [now inversion H|].
+    destruct (in_raw m r) eqn:Hr; cbn [negb andb]; [now apply IH|].
+    unfold LogView.mb at 1. destruct (mt f m) as [b|]; [|discriminate].
+    destruct (keep_aged f r l) as [k'|]; [|discriminate]. inversion H; subst.
+    rewrite <- (IH k' eq_refl). now destruct b.
   Qed.
 
-  Lemma ext_raw_spec : forall f l,
-    (forall m, In m l -> mt f m <> None) -> ext_raw f l = filter (mb f) l.
+  Lemma ext_raw_some : forall f l k, ext_raw f l = Some k -> k = filter (mb f) l.
   Proof.
-    intros f l; induction l as [|m l IH]; intros Ht; cbn [LogView.ext_raw filter]; [reflexivity|].
-    unfold LogView.mb at 1. destruct (mt f m) as [b|] eqn:Hm; [|exfalso; eapply Ht; [now left|eassumption]].
-    rewrite IH by (intros; apply Ht; now right). now destruct b.
+    intros f l; induction l as [|m l IH]; intros k H; cbn [LogView.ext_raw filter] in *; [now inversion H|].
+    unfold LogView.mb at 1. destruct (mt f m) as [b|]; [|discriminate].
+    destruct (ext_raw f l) as [k'|]; [|discriminate]. inversion H; subst.
+    rewrite <- (IH k' eq_refl). now destruct b.
   Qed.
 
   (* the invariant; [aged] is the specification-side list of gstep, [arr] the
@@ -200,18 +199,14 @@ Section LoggerProofs.
 
   Lemma step_set_filter_inv : forall s aged arr f,
     Inv s aged arr -> NoDup (ids arr) ->
-    (forall e, In e arr -> mt f e <> None) ->
     let (s', aged') := gstep (s, aged) (SetFilter (Some f)) in Inv s' aged' arr.
   Proof.
-    intros s aged arr f [Hv Ha Hs Hl] Hn Ht. cbn [LogView.gstep LogView.step]. unfold step_set_filter.
+    intros s aged arr f [Hv Ha Hs Hl] Hn. cbn [LogView.gstep LogView.step]. unfold step_set_filter, try_set_filter.
+    destruct (keep_aged f (raw s) (view s)) as [a|] eqn:Hka; [|split; auto].
+    destruct (ext_raw f (raw s)) as [r|] eqn:Her; [|split; auto].
+    apply keep_aged_some in Hka. apply ext_raw_some in Her. subst a r.
     assert (Hn' : NoDup (ids (aged ++ raw s))).
     { eapply subseq_NoDup; [apply subseq_map; exact Hs|exact Hn]. }
-    assert (Hin : forall m, In m (aged ++ raw s) -> mt f m <> None).
-    { intros m Hm. apply Ht. eapply subseq_In; eauto. }
-    rewrite keep_aged_spec.
-    2:{ intros m Hm. apply Hin. rewrite Hv in Hm. apply in_app_or in Hm as [Hm|Hm]; apply in_or_app; [now left|right].
-        now apply filter_In in Hm as [Hm _]. }
-    rewrite ext_raw_spec by (intros m Hm; apply Hin; apply in_or_app; now right).
     assert (Hk : filter (fun m => negb (in_raw m (raw s)) && mb f m) (view s) = filter (mb f) aged).
     { rewrite Hv, filter_app.
       assert (H2 : filter (fun m => negb (in_raw m (raw s)) && mb f m) (filter (mb (flt s)) (raw s)) = []).
@@ -235,12 +230,11 @@ Section LoggerProofs.
 
   Lemma gstep_inv : forall s aged arr o,
     Inv s aged arr -> NoDup (ids (arr ++ op_logged o)) ->
-    (forall f e, o = SetFilter (Some f) -> In e arr -> mt f e <> None) ->
     let (s', aged') := gstep (s, aged) o in Inv s' aged' (arr ++ op_logged o).
   Proof.
-    intros s aged arr o HI Hn Ht. destruct o as [e|[f|]|b|]; cbn [op_logged] in *.
+    intros s aged arr o HI Hn. destruct o as [e|[f|]|b|]; cbn [op_logged] in *.
     - now apply step_log_inv.
-    - rewrite app_nil_r in *. apply step_set_filter_inv; auto; intros; eapply Ht; eauto.
+    - rewrite app_nil_r in *. now apply step_set_filter_inv.
     - rewrite app_nil_r. cbn. exact HI.
     - rewrite app_nil_r. destruct HI. cbn. split; cbn; auto.
     - rewrite app_nil_r. destruct HI. cbn. split; cbn; auto; [constructor|lia].
@@ -251,20 +245,15 @@ Section LoggerProofs.
 
   Lemma grun_inv_gen : forall ops s aged arr,
     Inv s aged arr -> NoDup (ids (arr ++ logged ops)) ->
-    (forall f e, In f (filters ops) -> In e (arr ++ logged ops) -> mt f e <> None) ->
     let (s', aged') := fold_left gstep ops (s, aged) in Inv s' aged' (arr ++ logged ops).
   Proof.
-    induction ops as [|o ops IH]; intros s aged arr HI Hn Ht.
+    induction ops as [|o ops IH]; intros s aged arr HI Hn.
     - cbn. now rewrite app_nil_r.
     - cbn [fold_left]. rewrite logged_cons in *. rewrite app_assoc in *.
       pose proof (gstep_inv s aged arr o HI) as Hstep.
       destruct (gstep (s, aged) o) as [s1 aged1].
-      apply IH; auto.
-      + apply Hstep.
-        * eapply subseq_NoDup; [apply subseq_map; apply subseq_app_r; apply subseq_refl|exact Hn].
-        * intros f e -> He. apply Ht; [cbn; now left|]. apply in_or_app. left. apply in_or_app. now left.
-      + intros f e Hf He. apply Ht; [|assumption].
-        destruct o as [?|[?|]|?|]; cbn; auto.
+      apply IH; auto. apply Hstep.
+      eapply subseq_NoDup; [apply subseq_map; apply subseq_app_r; apply subseq_refl|exact Hn].
   Qed.
 
   Lemma init_inv : forall f0, Inv (init E F f0) [] [].
@@ -276,17 +265,14 @@ Section LoggerProofs.
   Lemma fst_grun : forall f0 ops, fst (grun f0 ops) = run f0 ops.
   Proof. intros. apply fst_grun_gen. Qed.
 
-  (* THE VIEW INVARIANT, for every operation sequence:
-     - entries are distinct objects,
-     - every filter installed by set_filter evaluates without raising on the
-       logged entries (the initial filter need not),
-     then after the sequence the view is exactly the retained entries (aged ++
-     window) that match the current filter, all aged entries match it, the view
-     has no duplicates and is a subsequence of the arrival order, and the
-     window holds at most maxlen entries. *)
+  (* THE VIEW INVARIANT, for every operation sequence of distinct entries - whether
+     or not a filter raises on some entry (set_filter then changes nothing, and
+     add_log_entry treats the entry as not matching): the view is exactly the
+     retained entries (aged ++ window) that match the current filter, all aged
+     entries match it, the view has no duplicates and is a subsequence of the arrival
+     order, and the window holds at most maxlen entries. *)
   Theorem view_invariant : forall f0 ops,
     NoDup (ids (logged ops)) ->
-    (forall f e, In f (filters ops) -> In e (logged ops) -> mt f e <> None) ->
     let s := run f0 ops in
     let aged := snd (grun f0 ops) in
     view s = filter (mb (flt s)) (aged ++ raw s) /\
@@ -296,9 +282,9 @@ Section LoggerProofs.
     subseq (aged ++ raw s) (logged ops) /\
     length (raw s) <= maxlen.
   Proof.
-    intros f0 ops Hn Ht. cbn zeta. rewrite <- fst_grun.
+    intros f0 ops Hn. cbn zeta. rewrite <- fst_grun.
     pose proof (grun_inv_gen ops (init E F f0) [] [] (init_inv f0)) as H.
-    cbn [app] in H. specialize (H Hn Ht). unfold LogView.grun.
+    cbn [app] in H. specialize (H Hn). unfold LogView.grun.
     destruct (fold_left gstep ops (init E F f0, [])) as [s aged]. cbn [fst snd].
     destruct H as [Hv Ha Hs Hl].
     assert (Hvs : subseq (view s) (aged ++ raw s)).
@@ -309,15 +295,12 @@ Section LoggerProofs.
     - eapply subseq_trans; eauto.
   Qed.
 
-  (* what happens to the specification-side [aged] list, stated without the ghost
-     machinery: an aged entry is a logged entry that is no longer in the window *)
   Corollary aged_not_in_window : forall f0 ops,
     NoDup (ids (logged ops)) ->
-    (forall f e, In f (filters ops) -> In e (logged ops) -> mt f e <> None) ->
     forall x, In x (snd (grun f0 ops)) -> in_raw x (raw (run f0 ops)) = false.
   Proof.
-    intros f0 ops Hn Ht x Hx.
-    destruct (view_invariant f0 ops Hn Ht) as [_ [_ [_ [_ [Hs _]]]]].
+    intros f0 ops Hn x Hx.
+    destruct (view_invariant f0 ops Hn) as [_ [_ [_ [_ [Hs _]]]]].
     apply in_raw_false.
     assert (Hn' : NoDup (ids (snd (grun f0 ops) ++ raw (run f0 ops)))).
     { eapply subseq_NoDup; [apply subseq_map; exact Hs|exact Hn]. }
@@ -329,50 +312,24 @@ Section LoggerProofs.
 End LoggerProofs.
 
 
-(* the extracted instance: safe filters never raise (FilterProofs.never_error) *)
-Lemma view_invariant_safe : forall maxlen f0 (ops : list (lop centry fexp)),
-  NoDup (map (@fst N entry) (logged centry fexp ops)) ->
-  forallb safe (filters centry fexp ops) = true ->
-  let s := crun maxlen f0 ops in
-  let aged := snd (grun centry fexp (@fst N entry) cmt maxlen f0 ops) in
-  view s = filter (mb centry fexp cmt (flt s)) (aged ++ raw s) /\
-  NoDup (map (@fst N entry) (view s)) /\
-  subseq (view s) (logged centry fexp ops).
-Proof.
-  intros maxlen f0 ops Hn Hs.
-  destruct (view_invariant centry fexp (@fst N entry) cmt maxlen f0 ops Hn) as [H1 [_ [H3 [H4 _]]]].
-  - intros f e Hf _. unfold cmt.
-    rewrite forallb_forall in Hs. specialize (Hs f Hf).
-    destruct (never_error f Hs true (snd e)) as [b [fl ->]]. discriminate.
-  - auto.
-Qed.
-
 (* ------------------------------------------------------------------ *)
-(* the concrete instance: without the no-raise hypothesis the invariant fails *)
+(* the concrete instance *)
 
 Definition w_entry_ok : entry :=
   mkEntry KLLUDP FOO LLUDP [] [[]] [(BAR, [[mkVar BAZ (PBytes None [1]%N) None]])].
 
-(* maxlen 1; log e1 (bytes field), log e2: e1 ages out while visible; then
-   set_filter("Foo.Bar.Baz ~= 256") raises ValueError on e1: the filter is
-   replaced, the view is not rebuilt *)
+(* maxlen 1; log e1, log e2 (e1 ages out while visible); set_filter with an
+   ill-formed filter (unknown enum) raises on e1: nothing changes *)
 Definition w_ops : list (lop centry fexp) :=
-  [Log (1%N, w_entry_bytes); Log (2%N, w_entry_ok); SetFilter (Some w_filter_in)].
+  [Log (1%N, w_entry_bytes); Log (2%N, w_entry_ok); SetFilter (Some w_filter_bogus)].
 
-Lemma view_invariant_refuted :
+Lemma set_filter_raise_keeps_state :
   let f0 := Leaf [42%N] [] None in
   let s := crun 1 f0 w_ops in
-  let aged := snd (grun centry fexp (@fst N entry) cmt 1 f0 w_ops) in
-  NoDup (map (@fst N entry) (logged centry fexp w_ops)) /\
-  map fst (view s) = [1%N; 2%N] /\
-  map fst (filter (mb centry fexp cmt (flt s)) (aged ++ raw s)) = [].
-Proof.
-  cbn zeta. split; [|split]; [|vm_compute; reflexivity|vm_compute; reflexivity].
-  cbn. repeat constructor; cbn; intuition discriminate.
-Qed.
+  flt s = f0 /\ map fst (view s) = [1%N; 2%N] /\ map fst (raw s) = [2%N].
+Proof. vm_compute. repeat split. Qed.
 
-(* non-vacuity: a sequence with eviction, re-filtering, pause and clear that
-   satisfies the hypotheses of view_invariant *)
+(* non-vacuity: a sequence with eviction, aging, re-filtering, pause and clear *)
 Definition ex_ops : list (lop centry fexp) :=
   [Log (1%N, w_entry_bytes); Log (2%N, w_entry_ok); Log (3%N, w_entry_meta);
    SetFilter (Some (Leaf FOO [BAR; BAZ] None)); SetPaused true; Log (4%N, w_entry_ok); SetPaused false;
@@ -380,13 +337,9 @@ Definition ex_ops : list (lop centry fexp) :=
 
 Lemma ex_ops_ok :
   NoDup (map (@fst N entry) (logged centry fexp ex_ops)) /\
-  (forall f e, In f (filters centry fexp ex_ops) -> In e (logged centry fexp ex_ops) -> cmt f e <> None) /\
   cobs (crun 2 (Leaf [42%N] [] None) ex_ops) = ([3%N; 5%N], [1%N; 2%N; 3%N; 5%N]).
 Proof.
-  split; [|split].
+  split.
   - cbn. repeat constructor; cbn; intuition discriminate.
-  - intros f e Hf He. cbn in Hf, He.
-    repeat (destruct Hf as [<-|Hf]; [repeat (destruct He as [<-|He]; [vm_compute; discriminate|]); destruct He|]).
-    destruct Hf.
   - vm_compute. reflexivity.
 Qed.
